@@ -317,6 +317,28 @@ impl Virtio {
         Virtio { mem, page, a_size, b_size, flip: std::cell::Cell::new(false) }
     }
 
+    /// Like `new`, but the data regions A and B are two halves of ONE host mapping: guest memory regions that are
+    /// not adjacent in guest-physical space and are adjacent in host memory (a backing allocation split around a
+    /// guest-physical hole). Each region still has its own dirty bitmap.
+    pub fn new_adjacent(page: usize, a_size: usize, b_size: usize) -> Self {
+        let total = a_size + b_size;
+        let ptr = unsafe { libc::mmap(std::ptr::null_mut(), total, libc::PROT_READ | libc::PROT_WRITE, libc::MAP_ANONYMOUS | libc::MAP_PRIVATE | libc::MAP_NORESERVE, -1, 0) };
+        assert!(ptr != libc::MAP_FAILED, "mmap of the shared backing failed");
+        let mk = |base: u64, size: usize, page: usize| {
+            let bm = AtomicBitmap::new(size, NonZeroUsize::new(page).unwrap());
+            let region = MmapRegionBuilder::new_with_bitmap(size, bm).with_mmap_prot(libc::PROT_READ | libc::PROT_WRITE).with_mmap_flags(libc::MAP_ANONYMOUS | libc::MAP_PRIVATE | libc::MAP_NORESERVE).build().expect("mmap region");
+            GuestRegionMmap::new(region, GuestAddress(base)).expect("guest region")
+        };
+        let mk_raw = |base: u64, off: usize, size: usize, page: usize| {
+            let bm = AtomicBitmap::new(size, NonZeroUsize::new(page).unwrap());
+            let region = unsafe { MmapRegionBuilder::new_with_bitmap(size, bm).with_mmap_prot(libc::PROT_READ | libc::PROT_WRITE).with_mmap_flags(libc::MAP_ANONYMOUS | libc::MAP_PRIVATE | libc::MAP_NORESERVE).with_raw_mmap_pointer((ptr as *mut u8).add(off)) }.build().expect("raw region");
+            GuestRegionMmap::new(region, GuestAddress(base)).expect("guest region")
+        };
+        let regions = vec![mk(Q_BASE, Q_SIZE, 4096), mk_raw(A_BASE, 0, a_size, page), mk_raw(B_BASE, a_size, b_size, page)];
+        let mem = GM::from_regions(regions).expect("guest memory");
+        Virtio { mem, page, a_size, b_size, flip: std::cell::Cell::new(false) }
+    }
+
     pub fn bg_byte(addr: u64) -> u8 {
         bg(addr)
     }
